@@ -147,6 +147,18 @@ func setResponseHeaderValue(r *http.Response, name string, val value.Value) {
 	r.Assign(name)
 }
 
+// addRequestHeaderValue appends a header line. The header exists afterwards,
+// so it is marked as assigned: add req.http.X = ""; makes req.http.X an empty string, not a not set value.
+func addRequestHeaderValue(r *http.Request, name string, val value.Value) {
+	r.Header.Add(name, val.String())
+	r.Assign(name)
+}
+
+func addResponseHeaderValue(r *http.Response, name string, val value.Value) {
+	r.Header.Add(name, val.String())
+	r.Assign(name)
+}
+
 func unsetRequestHeaderValue(r *http.Request, name string) {
 	// If unset header name ends with "*", remove all matched headers
 	if name, ok := strings.CutSuffix(name, "*"); ok {
